@@ -471,501 +471,507 @@ def run(repo, chk):
         chk.error("only %d simulator methods reachable from the loop (anchors moved?)" % len(loop_methods))
 
     # ------------------------------------------------------------ R-C10-1 loop-carried simulator attributes
-    carried = {}
-    for a, sts in self_stores(loop_mod).items():
-        carried.setdefault(a, []).extend([("run_sim loop", s) for s in sts])
-    for m in sorted(loop_methods):
-        for a, sts in self_stores(meths[m]).items():
-            carried.setdefault(a, []).extend([(m, s) for s in sts])
-    flag = find_flag(prologue, loop)
-    fsx = FirstStep(flag)
-    guard_of = fsx.guard_of
-    chk.extra["first_step_flag"] = flag
-    _cd_cache = {}
+    with chk.part("R-C10-1 loop-carried simulator attributes"):
+        carried = {}
+        for a, sts in self_stores(loop_mod).items():
+            carried.setdefault(a, []).extend([("run_sim loop", s) for s in sts])
+        for m in sorted(loop_methods):
+            for a, sts in self_stores(meths[m]).items():
+                carried.setdefault(a, []).extend([(m, s) for s in sts])
+        flag = find_flag(prologue, loop)
+        fsx = FirstStep(flag)
+        guard_of = fsx.guard_of
+        chk.extra["first_step_flag"] = flag
+        _cd_cache = {}
 
-    def call_defs(m):
-        """attribute -> [(method, assignment)] for every self.attr assignment in the closure of simulator method m."""
-        if m not in _cd_cache:
-            out = {}
-            for mm in sorted(closure(meths, [m])):
-                for a, sts in self_assigns(meths[mm]).items():
-                    out.setdefault(a, []).extend([(mm, s_) for s_ in sts])
-            _cd_cache[m] = out
-        return _cd_cache[m]
-    def local_from_model(nm):
-        """a prologue local is derived from the model if the statements its value depends on (followed through temporaries and guards) read it."""
-        try:
-            sl, _ = backward_slice(prologue, {nm})
-        except ExtractError:
-            sl = [n for n in walk(pro_mod) if isinstance(n, ast.Assign) and any(isinstance(t, ast.Name) and t.id == nm for t in _flat_targets(n))]
-        return any(mentions_model(x) for x in sl)
-    # definitions that can reach the loop on a continued run: reaching definitions of the prologue with the first-step guards (statement or
-    # conditional expression, any spelling) partially evaluated for "not the first step"
-    pro_defs = {}
-    fsx.reaching(prologue, pro_defs, "run_sim prologue", call_defs)
-    pro_defs = {a: [(m, s_, None) for m, s_ in lst] for a, lst in pro_defs.items() if lst}
-    init_defs = self_assigns(ini)
-    for m in closure(meths, self_method_calls(ini)):
-        if m != "__init__":
-            for a, sts in self_assigns(meths[m]).items():
-                init_defs.setdefault(a, []).extend(sts)
-    inv = []
-    for a in sorted(carried):
-        where = carried[a][0]
-        defs = pro_defs.get(a, [])     # definitions that can reach the loop on a continued run
-        construct = "loop-carried simulator state self.%s is re-derived from the model when a continued run starts" % a
-        if a in INVARIANT:
-            chk.ok("R-C10-1", "self.%s: %s" % (a, INVARIANT[a]), loc(rs))
-            continue
-        if defs:
-            bad = []
-            for m, s, g in defs:
-                val = s.value if isinstance(s, (ast.Assign, ast.AnnAssign)) else getattr(s, "value", None)
-                if val is not None and m == "run_sim prologue":
-                    val = fsx.continued_value(val)     # `a if first_step else b` defines b on a continued run
-                fn_reads_model = m != "run_sim prologue" and mentions_model(meths[m])
-                if val is not None and (mentions_model(val) or fn_reads_model) and not (m == "run_sim prologue" and is_constant_value(val)):
-                    continue
-                if val is not None and not is_constant_value(val) and m == "run_sim prologue":
-                    # derived from other prologue values: accept when those come from the model
-                    names = {x.id for x in ast.walk(val) if isinstance(x, ast.Name)}
-                    if names and all(local_from_model(nm) for nm in names if nm not in ("int", "float", "len", "dict", "list", "bool", "self")):
-                        continue
-                bad.append((m, s))
-            inv.append({"attr": a, "written_in": where[0], "continued_run_definitions": ["%s: %s" % (m, norm(s)) for m, s, g in defs]})
-            if bad:
-                m, s = bad[0]
-                chk.bad("R-C10-1", construct, loc(rs if m == "run_sim prologue" else meths[m], s),
-                        "self.%s is assigned in the loop (%s: %s) and the definition reaching the loop on a continued run does not read the model: %s" % (
-                            a, where[0], norm(where[1]), norm(s)), expected="a value derived from self._wn", found=norm(s))
-            else:
-                chk.ok("R-C10-1", construct, loc(rs), "; ".join("%s: %s" % (m, norm(s)) for m, s, g in defs)[:300])
-        else:
-            idefs = init_defs.get(a, [])
-            inv.append({"attr": a, "written_in": where[0], "continued_run_definitions": ["__init__: %s" % norm(s) for s in idefs]})
-            if not idefs:
-                chk.bad("R-C10-1", construct, loc(rs, where[1]), "self.%s is written in the loop but has no definition before it" % a)
+        def call_defs(m):
+            """attribute -> [(method, assignment)] for every self.attr assignment in the closure of simulator method m."""
+            if m not in _cd_cache:
+                out = {}
+                for mm in sorted(closure(meths, [m])):
+                    for a, sts in self_assigns(meths[mm]).items():
+                        out.setdefault(a, []).extend([(mm, s_) for s_ in sts])
+                _cd_cache[m] = out
+            return _cd_cache[m]
+        def local_from_model(nm):
+            """a prologue local is derived from the model if the statements its value depends on (followed through temporaries and guards) read it."""
+            try:
+                sl, _ = backward_slice(prologue, {nm})
+            except ExtractError:
+                sl = [n for n in walk(pro_mod) if isinstance(n, ast.Assign) and any(isinstance(t, ast.Name) and t.id == nm for t in _flat_targets(n))]
+            return any(mentions_model(x) for x in sl)
+        # definitions that can reach the loop on a continued run: reaching definitions of the prologue with the first-step guards (statement or
+        # conditional expression, any spelling) partially evaluated for "not the first step"
+        pro_defs = {}
+        fsx.reaching(prologue, pro_defs, "run_sim prologue", call_defs)
+        pro_defs = {a: [(m, s_, None) for m, s_ in lst] for a, lst in pro_defs.items() if lst}
+        init_defs = self_assigns(ini)
+        for m in closure(meths, self_method_calls(ini)):
+            if m != "__init__":
+                for a, sts in self_assigns(meths[m]).items():
+                    init_defs.setdefault(a, []).extend(sts)
+        inv = []
+        for a in sorted(carried):
+            where = carried[a][0]
+            defs = pro_defs.get(a, [])     # definitions that can reach the loop on a continued run
+            construct = "loop-carried simulator state self.%s is re-derived from the model when a continued run starts" % a
+            if a in INVARIANT:
+                chk.ok("R-C10-1", "self.%s: %s" % (a, INVARIANT[a]), loc(rs))
                 continue
-            const_defs = [s for s in idefs if isinstance(s, ast.Assign) and is_constant_value(s.value)]
-            s = idefs[0]
-            chk.expect(not const_defs, "R-C10-1", construct, loc(ini, s),
-                       "self.%s is assigned in the loop (%s: %s); a new simulator starts it from the constant %s and nothing in the prologue re-derives it from "
-                       "the model: a continued run differs from the uninterrupted one whenever this state is non-trivial at the pause" % (
-                           a, where[0], norm(where[1]), norm(s)), expected="a prologue assignment reading self._wn", found=norm(s))
-    chk.sample({"rule": "R-C10-1", "inventory": inv[:20]})
-    chk.floor("R-C10-1", 5)
+            if defs:
+                bad = []
+                for m, s, g in defs:
+                    val = s.value if isinstance(s, (ast.Assign, ast.AnnAssign)) else getattr(s, "value", None)
+                    if val is not None and m == "run_sim prologue":
+                        val = fsx.continued_value(val)     # `a if first_step else b` defines b on a continued run
+                    fn_reads_model = m != "run_sim prologue" and mentions_model(meths[m])
+                    if val is not None and (mentions_model(val) or fn_reads_model) and not (m == "run_sim prologue" and is_constant_value(val)):
+                        continue
+                    if val is not None and not is_constant_value(val) and m == "run_sim prologue":
+                        # derived from other prologue values: accept when those come from the model
+                        names = {x.id for x in ast.walk(val) if isinstance(x, ast.Name)}
+                        if names and all(local_from_model(nm) for nm in names if nm not in ("int", "float", "len", "dict", "list", "bool", "self")):
+                            continue
+                    bad.append((m, s))
+                inv.append({"attr": a, "written_in": where[0], "continued_run_definitions": ["%s: %s" % (m, norm(s)) for m, s, g in defs]})
+                if bad:
+                    m, s = bad[0]
+                    chk.bad("R-C10-1", construct, loc(rs if m == "run_sim prologue" else meths[m], s),
+                            "self.%s is assigned in the loop (%s: %s) and the definition reaching the loop on a continued run does not read the model: %s" % (
+                                a, where[0], norm(where[1]), norm(s)), expected="a value derived from self._wn", found=norm(s))
+                else:
+                    chk.ok("R-C10-1", construct, loc(rs), "; ".join("%s: %s" % (m, norm(s)) for m, s, g in defs)[:300])
+            else:
+                idefs = init_defs.get(a, [])
+                inv.append({"attr": a, "written_in": where[0], "continued_run_definitions": ["__init__: %s" % norm(s) for s in idefs]})
+                if not idefs:
+                    chk.bad("R-C10-1", construct, loc(rs, where[1]), "self.%s is written in the loop but has no definition before it" % a)
+                    continue
+                const_defs = [s for s in idefs if isinstance(s, ast.Assign) and is_constant_value(s.value)]
+                s = idefs[0]
+                chk.expect(not const_defs, "R-C10-1", construct, loc(ini, s),
+                           "self.%s is assigned in the loop (%s: %s); a new simulator starts it from the constant %s and nothing in the prologue re-derives it from "
+                           "the model: a continued run differs from the uninterrupted one whenever this state is non-trivial at the pause" % (
+                               a, where[0], norm(where[1]), norm(s)), expected="a prologue assignment reading self._wn", found=norm(s))
+        chk.sample({"rule": "R-C10-1", "inventory": inv[:20]})
+        chk.floor("R-C10-1", 5)
 
-    # loop-carried locals of run_sim: assigned in the loop and read in the loop before being assigned on some path -> must not start from a
-    # constant that depends on elapsed time; enumerated and classified
-    loc_assigned = {}
-    for n in walk(loop_mod):
-        if isinstance(n, (ast.Assign, ast.AugAssign)):
-            for t in (n.targets if isinstance(n, ast.Assign) else [n.target]):
-                for e in (t.elts if isinstance(t, (ast.Tuple, ast.List)) else [t]):
-                    if isinstance(e, ast.Name):
-                        loc_assigned.setdefault(e.id, []).append(n)
-    g = CFG(rs)
-    idom = g.dominators()
-    head = g.loop_heads[loop]
-    loop_ids = {id(x) for x in ast.walk(loop)}
-    in_loop = lambda i: id(g.node_ast(i)) in loop_ids
-    after_head = g.reachable(head)
-    fwd = g.view(drop_back=True)
-    import networkx as nx
-    # local aliases of simulator/model objects (wn = self._wn): resolved before a store target is compared
-    n_assign = {}
-    for n in walk(rs):
-        if isinstance(n, (ast.Assign, ast.AugAssign, ast.AnnAssign, ast.For)):
-            for t in _flat_targets(n):
-                if isinstance(t, ast.Name):
-                    n_assign.setdefault(t.id, []).append(n)
-    alias = {nm: dotted(sts[0].value) for nm, sts in n_assign.items()
-             if len(sts) == 1 and isinstance(sts[0], ast.Assign) and (dotted(sts[0].value) or "").startswith("self.")}
+        # loop-carried locals of run_sim: assigned in the loop and read in the loop before being assigned on some path -> must not start from a
+        # constant that depends on elapsed time; enumerated and classified
+        loc_assigned = {}
+        for n in walk(loop_mod):
+            if isinstance(n, (ast.Assign, ast.AugAssign)):
+                for t in (n.targets if isinstance(n, ast.Assign) else [n.target]):
+                    for e in (t.elts if isinstance(t, (ast.Tuple, ast.List)) else [t]):
+                        if isinstance(e, ast.Name):
+                            loc_assigned.setdefault(e.id, []).append(n)
+        g = CFG(rs)
+        idom = g.dominators()
+        head = g.loop_heads[loop]
+        loop_ids = {id(x) for x in ast.walk(loop)}
+        in_loop = lambda i: id(g.node_ast(i)) in loop_ids
+        after_head = g.reachable(head)
+        fwd = g.view(drop_back=True)
+        import networkx as nx
+        # local aliases of simulator/model objects (wn = self._wn): resolved before a store target is compared
+        n_assign = {}
+        for n in walk(rs):
+            if isinstance(n, (ast.Assign, ast.AugAssign, ast.AnnAssign, ast.For)):
+                for t in _flat_targets(n):
+                    if isinstance(t, ast.Name):
+                        n_assign.setdefault(t.id, []).append(n)
+        alias = {nm: dotted(sts[0].value) for nm, sts in n_assign.items()
+                 if len(sts) == 1 and isinstance(sts[0], ast.Assign) and (dotted(sts[0].value) or "").startswith("self.")}
 
-    def canon(t):
-        d = dotted(t)
-        if d and "." in d and d.split(".")[0] in alias:      # a store THROUGH an alias; binding the alias name itself stores nothing
-            d = alias[d.split(".")[0]] + d[len(d.split(".")[0]):]
-        return d
+        def canon(t):
+            d = dotted(t)
+            if d and "." in d and d.split(".")[0] in alias:      # a store THROUGH an alias; binding the alias name itself stores nothing
+                d = alias[d.split(".")[0]] + d[len(d.split(".")[0]):]
+            return d
 
-    def stores_to(text):
-        return g.nodes_where(lambda node, d: isinstance(node, (ast.Assign, ast.AugAssign, ast.AnnAssign)) and any(canon(t) == text for t in _flat_targets(node)))
-    # the time advance = pause point: the first store to the model clock on the accepted-step path (later stores of the same sequence, e.g. the
-    # removal of the overstep, are dominated by it), however it is spelled (+=, a = a + h, through an alias)
-    clock_stores = [i for i in stores_to("self._wn.sim_time") if in_loop(i)]
-    adv = [a_ for a_ in clock_stores if not any(b_ != a_ and g.dominates(b_, a_, idom) for b_ in clock_stores)]
+        def stores_to(text):
+            return g.nodes_where(lambda node, d: isinstance(node, (ast.Assign, ast.AugAssign, ast.AnnAssign)) and any(canon(t) == text for t in _flat_targets(node)))
+        # the time advance = pause point: the first store to the model clock on the accepted-step path (later stores of the same sequence, e.g. the
+        # removal of the overstep, are dominated by it), however it is spelled (+=, a = a + h, through an alias)
+        clock_stores = [i for i in stores_to("self._wn.sim_time") if in_loop(i)]
+        adv = [a_ for a_ in clock_stores if not any(b_ != a_ and g.dominates(b_, a_, idom) for b_ in clock_stores)]
 
-    def local_assigns(nm):
-        return [i for i in g.nodes_where(lambda node, d: isinstance(node, (ast.Assign, ast.AugAssign, ast.AnnAssign))
-                                         and any(isinstance(t, ast.Name) and t.id == nm for t in _flat_targets(node))) if in_loop(i)]
+        def local_assigns(nm):
+            return [i for i in g.nodes_where(lambda node, d: isinstance(node, (ast.Assign, ast.AugAssign, ast.AnnAssign))
+                                             and any(isinstance(t, ast.Name) and t.id == nm for t in _flat_targets(node))) if in_loop(i)]
 
-    def reads_name(node, nm):
-        if isinstance(node, ast.AugAssign) and isinstance(node.target, ast.Name) and node.target.id == nm:
-            return True
-        return any(isinstance(x, ast.Name) and x.id == nm and isinstance(x.ctx, ast.Load) for x in ast.walk(node))
+        def reads_name(node, nm):
+            if isinstance(node, ast.AugAssign) and isinstance(node.target, ast.Name) and node.target.id == nm:
+                return True
+            return any(isinstance(x, ast.Name) and x.id == nm and isinstance(x.ctx, ast.Load) for x in ast.walk(node))
 
-    def same_const(x, y):
-        return type(x) is type(y) and x == y
-    pro_local_defs = {nm: [n for n in walk(pro_mod) if isinstance(n, ast.Assign) and any(isinstance(t, ast.Name) and t.id == nm for t in _flat_targets(n))]
-                      for nm in loc_assigned}
-    NOCONST = object()
+        def same_const(x, y):
+            return type(x) is type(y) and x == y
+        pro_local_defs = {nm: [n for n in walk(pro_mod) if isinstance(n, ast.Assign) and any(isinstance(t, ast.Name) and t.id == nm for t in _flat_targets(n))]
+                          for nm in loc_assigned}
+        NOCONST = object()
 
-    def init_const(nm):
-        vals = [const(p.value, NOCONST) for p in pro_local_defs.get(nm, [])]
-        if vals and all(v is not NOCONST and same_const(v, vals[0]) for v in vals) and all(len(p.targets) == 1 and isinstance(p.targets[0], ast.Name) for p in pro_local_defs[nm]):
-            return vals[0]
-        return NOCONST
-    # (A) pause-invariant locals: whenever the clock is advanced (the only points where a run can end and be continued) the local holds the
-    # constant a new run initialises it with -- every other assignment in the loop is followed by a re-assignment of that constant before an advance
-    K = {}
-    for nm in sorted(loc_assigned):
-        c = init_const(nm)
-        if c is NOCONST or not adv:
-            continue
-        las = local_assigns(nm)
-        back = [i for i in las if isinstance(g.node_ast(i), ast.Assign) and len(g.node_ast(i).targets) == 1 and isinstance(g.node_ast(i).targets[0], ast.Name)
-                and same_const(const(g.node_ast(i).value, NOCONST), c)]
-        other = [i for i in las if i not in back]
-        if all(g.must_pass(o, set(adv), back)[0] for o in other):
-            K[nm] = c
+        def init_const(nm):
+            vals = [const(p.value, NOCONST) for p in pro_local_defs.get(nm, [])]
+            if vals and all(v is not NOCONST and same_const(v, vals[0]) for v in vals) and all(len(p.targets) == 1 and isinstance(p.targets[0], ast.Name) for p in pro_local_defs[nm]):
+                return vals[0]
+            return NOCONST
+        # (A) pause-invariant locals: whenever the clock is advanced (the only points where a run can end and be continued) the local holds the
+        # constant a new run initialises it with -- every other assignment in the loop is followed by a re-assignment of that constant before an advance
+        K = {}
+        for nm in sorted(loc_assigned):
+            c = init_const(nm)
+            if c is NOCONST or not adv:
+                continue
+            las = local_assigns(nm)
+            back = [i for i in las if isinstance(g.node_ast(i), ast.Assign) and len(g.node_ast(i).targets) == 1 and isinstance(g.node_ast(i).targets[0], ast.Name)
+                    and same_const(const(g.node_ast(i).value, NOCONST), c)]
+            other = [i for i in las if i not in back]
+            if all(g.must_pass(o, set(adv), back)[0] for o in other):
+                K[nm] = c
 
-    def unobservable(nm):
-        """(B) the value the local has when the loop is entered is never used: on every path from the loop head a plain re-assignment comes
+        def unobservable(nm):
+            """(B) the value the local has when the loop is entered is never used: on every path from the loop head a plain re-assignment comes
         before any use.  Branches whose test is decided by the pause-invariant locals (A) -- which hold their initial constants at loop entry -- are
         followed only in the decided direction, for their first evaluation."""
-        env = {k: v for k, v in K.items() if k != nm}
-        kills = [i for i in local_assigns(nm) if isinstance(g.node_ast(i), ast.Assign) and not reads_name(g.node_ast(i).value, nm)
-                 and all(isinstance(t, ast.Name) for t in g.node_ast(i).targets)]
-        reads = {i for i in after_head if g.node_ast(i) is not None and i not in kills and reads_name(g.node_ast(i), nm)}
-        decided = []
-        for i, d in g.g.nodes(data=True):
-            if d["kind"] != "test" or not in_loop(i):
+            env = {k: v for k, v in K.items() if k != nm}
+            kills = [i for i in local_assigns(nm) if isinstance(g.node_ast(i), ast.Assign) and not reads_name(g.node_ast(i).value, nm)
+                     and all(isinstance(t, ast.Name) for t in g.node_ast(i).targets)]
+            reads = {i for i in after_head if g.node_ast(i) is not None and i not in kills and reads_name(g.node_ast(i), nm)}
+            decided = []
+            for i, d in g.g.nodes(data=True):
+                if d["kind"] != "test" or not in_loop(i):
+                    continue
+                used = {x.id for x in ast.walk(d["node"]) if isinstance(x, ast.Name)}
+                if not used or not used <= set(env):
+                    continue
+                try:
+                    ev = Evaluator(env=dict(env))
+                    out = bool(ev.truth(ev.ev(d["node"])))
+                except (Unknown, Raised, TypeError):
+                    continue
+                # the decision is only valid while the locals still hold their entry values: no assignment of them between the loop head and the test
+                dirty = False
+                for v in used:
+                    for x in local_assigns(v):
+                        if x in fwd and head in fwd and i in fwd and nx.has_path(fwd, head, x) and nx.has_path(fwd, x, i):
+                            dirty = True
+                if not dirty:
+                    decided.append((i, out))
+            w = g.can_reach_avoiding(head, reads, set(kills) | {i for i, o in decided})
+            if w is not None:
+                return False, g.path_text(w)
+            for i, out in decided:
+                for sc in g.succ_on(i, out):
+                    w = g.can_reach_avoiding(sc, reads, set(kills))
+                    if w is not None:
+                        return False, g.path_text([i] + w)
+            return True, None
+        for nm in sorted(loc_assigned):
+            pdefs = pro_local_defs[nm]
+            if not pdefs:
+                chk.ok("R-C10-1b", "run_sim local %s is loop-local scratch (no definition before the loop)" % nm, loc(rs, loc_assigned[nm][0]))
                 continue
-            used = {x.id for x in ast.walk(d["node"]) if isinstance(x, ast.Name)}
-            if not used or not used <= set(env):
-                continue
-            try:
-                ev = Evaluator(env=dict(env))
-                out = bool(ev.truth(ev.ev(d["node"])))
-            except (Unknown, Raised, TypeError):
-                continue
-            # the decision is only valid while the locals still hold their entry values: no assignment of them between the loop head and the test
-            dirty = False
-            for v in used:
-                for x in local_assigns(v):
-                    if x in fwd and head in fwd and i in fwd and nx.has_path(fwd, head, x) and nx.has_path(fwd, x, i):
-                        dirty = True
-            if not dirty:
-                decided.append((i, out))
-        w = g.can_reach_avoiding(head, reads, set(kills) | {i for i, o in decided})
-        if w is not None:
-            return False, g.path_text(w)
-        for i, out in decided:
-            for sc in g.succ_on(i, out):
-                w = g.can_reach_avoiding(sc, reads, set(kills))
-                if w is not None:
-                    return False, g.path_text([i] + w)
-        return True, None
-    for nm in sorted(loc_assigned):
-        pdefs = pro_local_defs[nm]
-        if not pdefs:
-            chk.ok("R-C10-1b", "run_sim local %s is loop-local scratch (no definition before the loop)" % nm, loc(rs, loc_assigned[nm][0]))
-            continue
-        construct = "run_sim local %s carried across iterations is re-derived from the model on a continued run" % nm
-        derived = any(mentions_model(p.value) or guard_of(p, rs) is not None for p in pdefs) or local_from_model(nm)
-        if derived:
-            chk.ok("R-C10-1b", construct, loc(rs, pdefs[0]), "; ".join(norm(p) for p in pdefs))
-        elif nm in K:
-            chk.ok("R-C10-1b", "run_sim local %s: holds its initial constant %r at every time advance, i.e. at every possible pause point" % (nm, K[nm]), loc(rs, pdefs[0]))
-        else:
-            okb, wit = unobservable(nm)
-            if okb:
-                chk.ok("R-C10-1b", "run_sim local %s: the value it has when the loop is entered is re-assigned before any use" % nm, loc(rs, pdefs[0]))
+            construct = "run_sim local %s carried across iterations is re-derived from the model on a continued run" % nm
+            derived = any(mentions_model(p.value) or guard_of(p, rs) is not None for p in pdefs) or local_from_model(nm)
+            if derived:
+                chk.ok("R-C10-1b", construct, loc(rs, pdefs[0]), "; ".join(norm(p) for p in pdefs))
+            elif nm in K:
+                chk.ok("R-C10-1b", "run_sim local %s: holds its initial constant %r at every time advance, i.e. at every possible pause point" % (nm, K[nm]), loc(rs, pdefs[0]))
             else:
-                chk.bad("R-C10-1b", construct, loc(rs, pdefs[0]),
-                        "local %s is initialised to %s before the loop and updated inside it; a continued run uses that initial value (%s) while the "
-                        "uninterrupted run carries the updated one" % (nm, norm(pdefs[0].value), wit), found=[norm(p) for p in pdefs])
-    chk.floor("R-C10-1b", 3)
-    chk.expect(bool(adv), "R-C10-1b", "the time advance of the loop (the pause point) is identified", loc(rs), found=len(clock_stores))
-    chk.extra["pause_invariant_locals"] = {k: repr(v) for k, v in K.items()}
+                okb, wit = unobservable(nm)
+                if okb:
+                    chk.ok("R-C10-1b", "run_sim local %s: the value it has when the loop is entered is re-assigned before any use" % nm, loc(rs, pdefs[0]))
+                else:
+                    chk.bad("R-C10-1b", construct, loc(rs, pdefs[0]),
+                            "local %s is initialised to %s before the loop and updated inside it; a continued run uses that initial value (%s) while the "
+                            "uninterrupted run carries the updated one" % (nm, norm(pdefs[0].value), wit), found=[norm(p) for p in pdefs])
+        chk.floor("R-C10-1b", 3)
+        chk.expect(bool(adv), "R-C10-1b", "the time advance of the loop (the pause point) is identified", loc(rs), found=len(clock_stores))
+        chk.extra["pause_invariant_locals"] = {k: repr(v) for k, v in K.items()}
 
     # ------------------------------------------------------------ R-C10-4 initialisation agrees with the loop's own update
-    # the connectivity graph is loop-carried state: what a new simulator derives from the model at the start of a continued run must be what the
-    # uninterrupted run's update rule would have produced -- both encode a link from the same atoms (its status), nothing else
-    from .c09 import closed_test_polarity, status_encoding_table
-    ig_, ug_ = meths.get("_initialize_internal_graph"), meths.get("_update_internal_graph")
-    if ig_ is None or ug_ is None:
-        raise AnchorError("_initialize_internal_graph / _update_internal_graph vanished")
-    gi_ = encoding_guards(ig_, closed_test_polarity)
-    gu_ = encoding_guards(ug_, closed_test_polarity)
-    if not gi_ or not gu_:
-        raise ExtractError("status encodings of the internal graph not found")
+    with chk.part("R-C10-4 initialisation agrees with the loop's own update"):
+        # the connectivity graph is loop-carried state: what a new simulator derives from the model at the start of a continued run must be what the
+        # uninterrupted run's update rule would have produced -- both encode a link from the same atoms (its status), nothing else
+        from .c09 import closed_test_polarity, status_encoding_table
+        ig_, ug_ = meths.get("_initialize_internal_graph"), meths.get("_update_internal_graph")
+        if ig_ is None or ug_ is None:
+            raise AnchorError("_initialize_internal_graph / _update_internal_graph vanished")
+        gi_ = encoding_guards(ig_, closed_test_polarity)
+        gu_ = encoding_guards(ug_, closed_test_polarity)
+        if not gi_ or not gu_:
+            raise ExtractError("status encodings of the internal graph not found")
 
-    def atoms_of(guards):
-        out = set()
-        for gd in guards:
-            out |= set(status_encoding_table(gd.test)[2])
-        return out
-    ai, au = atoms_of(gi_), atoms_of(gu_)
-    chk.expect(ai == au, "R-C10-4", "the initial connectivity graph of a (continued) run is derived from the same link facts as the per-step update", loc(ig_, gi_[0]),
-               "a new simulator encodes links from %s in addition to the status, the update inside the loop from %s: a graph entry set from run-time flags at restart "
-               "is never refreshed by the update (it only reacts to status changes), so the continued run keeps a stale entry the uninterrupted run never had" % (sorted(ai) or "nothing", sorted(au) or "nothing"),
-               expected=sorted(au), found=sorted(ai))
+        def atoms_of(guards):
+            out = set()
+            for gd in guards:
+                out |= set(status_encoding_table(gd.test)[2])
+            return out
+        ai, au = atoms_of(gi_), atoms_of(gu_)
+        chk.expect(ai == au, "R-C10-4", "the initial connectivity graph of a (continued) run is derived from the same link facts as the per-step update", loc(ig_, gi_[0]),
+                   "a new simulator encodes links from %s in addition to the status, the update inside the loop from %s: a graph entry set from run-time flags at restart "
+                   "is never refreshed by the update (it only reacts to status changes), so the continued run keeps a stale entry the uninterrupted run never had" % (sorted(ai) or "nothing", sorted(au) or "nothing"),
+                   expected=sorted(au), found=sorted(ai))
 
-    # ... and with the same KIND of test: a status may be held as a LinkStatus member or as the plain number a control action was given
-    # (ControlAction(link, 'status', 0) stores the int itself); `==` treats both alike, `is` only recognises the member.  If the initialisation and the
-    # update disagree in kind, a link closed by such an action is cut by the update of the uninterrupted run and joined by the initialisation of the continued one.
-    def test_kinds(guards):
-        kinds = set()
-        for gd in guards:
-            for cmp_ in ast.walk(gd.test):
-                if isinstance(cmp_, ast.Compare) and any("Closed" in unparse(x) for x in [cmp_.left] + list(cmp_.comparators)):
-                    for op in cmp_.ops:
-                        kinds.add("identity" if isinstance(op, (ast.Is, ast.IsNot)) else "equality" if isinstance(op, (ast.Eq, ast.NotEq)) else
-                                  "membership" if isinstance(op, (ast.In, ast.NotIn)) else type(op).__name__)
-        return kinds
-    ki, ku = test_kinds(gi_), test_kinds(gu_)
-    chk.expect(ki == ku and bool(ki), "R-C10-4", "the initialisation and the per-step update of the connectivity graph test the status in the same way (equality / identity)", loc(ig_, gi_[0]),
-               "a status stored as a plain number compares equal to LinkStatus.Closed but is not identical to it: a link closed that way is cut by one of the two functions and joined "
-               "by the other, so the continued run starts from a graph the uninterrupted run never had", expected=sorted(ku), found=sorted(ki))
+        # ... and with the same KIND of test: a status may be held as a LinkStatus member or as the plain number a control action was given
+        # (ControlAction(link, 'status', 0) stores the int itself); `==` treats both alike, `is` only recognises the member.  If the initialisation and the
+        # update disagree in kind, a link closed by such an action is cut by the update of the uninterrupted run and joined by the initialisation of the continued one.
+        def test_kinds(guards):
+            kinds = set()
+            for gd in guards:
+                for cmp_ in ast.walk(gd.test):
+                    if isinstance(cmp_, ast.Compare) and any("Closed" in unparse(x) for x in [cmp_.left] + list(cmp_.comparators)):
+                        for op in cmp_.ops:
+                            kinds.add("identity" if isinstance(op, (ast.Is, ast.IsNot)) else "equality" if isinstance(op, (ast.Eq, ast.NotEq)) else
+                                      "membership" if isinstance(op, (ast.In, ast.NotIn)) else type(op).__name__)
+            return kinds
+        ki, ku = test_kinds(gi_), test_kinds(gu_)
+        chk.expect(ki == ku and bool(ki), "R-C10-4", "the initialisation and the per-step update of the connectivity graph test the status in the same way (equality / identity)", loc(ig_, gi_[0]),
+                   "a status stored as a plain number compares equal to LinkStatus.Closed but is not identical to it: a link closed that way is cut by one of the two functions and joined "
+                   "by the other, so the continued run starts from a graph the uninterrupted run never had", expected=sorted(ku), found=sorted(ki))
 
     # ------------------------------------------------------------ R-C10-2 model-side state is plain picklable attributes
-    # every class whose instances are part of the pickled model graph: all classes of the model modules (elements, registries, controls, conditions, actions,
-    # options, the ordered set they use) -- derived from the source, so a class added later is covered
-    MODEL_MODULES = (BASE, ELEM, MODEL, CTRL, OPTS, "wntr/utils/ordered_set.py")
-    rt_classes = []
-    for rel in MODEL_MODULES:
-        if not repo.exists(rel):
-            raise AnchorError("module vanished: %s" % rel)
-        for c in ast.walk(repo.tree(rel)):
-            if isinstance(c, ast.ClassDef):
-                rt_classes.append((rel, c))
-    for need in ("Node", "Link", "Junction", "Tank", "Pipe", "HeadPump", "Valve", "WaterNetworkModel", "TankLevelCondition", "ValueCondition", "SimTimeCondition", "Control", "Rule", "ControlAction"):
-        if need not in {c.name for _r, c in rt_classes}:
-            raise AnchorError("class %s vanished from the model modules" % need)
-    hooks = ("__getstate__", "__setstate__", "__reduce__", "__reduce_ex__", "__deepcopy__", "__copy__")
-    n_hook = 0
-    for rel, c in rt_classes:
-        found = []
-        for n in c.body:
-            if isinstance(n, ast.FunctionDef) and n.name in hooks:
-                found.append(n.name)
-        # __slots__ is compatible with pickling only when every attribute the class's methods store is a slot: else the store raises / is lost
-        slots = [n for n in c.body if isinstance(n, ast.Assign) and any(isinstance(t, ast.Name) and t.id == "__slots__" for t in n.targets)]
-        if slots:
-            found.append("__slots__")
-        n_hook += 1
-        chk.expect(not found, "R-C10-2", "%s keeps its state in plain instance attributes (no pickling / copying hook, no __slots__)" % c.name, loc(rel, c),
-                   "a pickling hook can drop or rename run-time fields between pause and restart", found=found)
-    vc = repo.cls(CTRL, "ValueCondition")
-    vm = {n.name: n for n in vc.body if isinstance(n, ast.FunctionDef)}
-    if "__new__" in vm and "__getnewargs__" in vm:
-        new_params = [a.arg for a in vm["__new__"].args.args][1:]
-        ret = [r for r in walk(vm["__getnewargs__"]) if isinstance(r, ast.Return)]
-        elts = ret[0].value.elts if ret and isinstance(ret[0].value, ast.Tuple) else []
-        got = [unparse(e).replace("self._", "") for e in elts]
-        chk.expect(len(elts) == len(new_params) and all(g.startswith(p[:6]) or p in g for g, p in zip(got, new_params)), "R-C10-2",
-                   "ValueCondition.__getnewargs__ returns the arguments of __new__ in order", loc(CTRL, vm["__getnewargs__"]),
-                   expected=new_params, found=got)
-    elif "__new__" in vm:
-        chk.bad("R-C10-2", "ValueCondition defines __new__ with arguments but no __getnewargs__ (unpickling fails)", loc(CTRL, vm["__new__"]))
-    # prologue stores to the model only under first_step
-    n_p = 0
-    for recv, attr, ae, via, node in writes(ast.Module(body=prologue, type_ignores=[])):
-        rv = unparse(recv)
-        if rv.startswith("self._wn") or rv == "wn":
-            n_p += 1
-            chk.expect(guard_of(node, rs) == "first", "R-C10-2", "prologue store %s.%s happens only on a first step" % (rv, attr), loc(rs, node),
-                       "run_sim overwrites model-side run-time state before the loop on a continued run", found=norm(node))
-    for c in calls(ast.Module(body=prologue, type_ignores=[])):
-        nm = call_name(c) or ""
-        if nm.endswith("update_network_previous_values") or nm.endswith("reset_initial_values"):
-            n_p += 1
-            chk.expect(guard_of(c, rs) == "first" or guard_of(parent(c), rs) == "first", "R-C10-2", "prologue call %s happens only on a first step" % nm.split(".")[-1], loc(rs, c))
-    chk.floor("R-C10-2", 60)
+    with chk.part("R-C10-2 model-side state is plain picklable attributes"):
+        # every class whose instances are part of the pickled model graph: all classes of the model modules (elements, registries, controls, conditions, actions,
+        # options, the ordered set they use) -- derived from the source, so a class added later is covered
+        MODEL_MODULES = (BASE, ELEM, MODEL, CTRL, OPTS, "wntr/utils/ordered_set.py")
+        rt_classes = []
+        for rel in MODEL_MODULES:
+            if not repo.exists(rel):
+                raise AnchorError("module vanished: %s" % rel)
+            for c in ast.walk(repo.tree(rel)):
+                if isinstance(c, ast.ClassDef):
+                    rt_classes.append((rel, c))
+        for need in ("Node", "Link", "Junction", "Tank", "Pipe", "HeadPump", "Valve", "WaterNetworkModel", "TankLevelCondition", "ValueCondition", "SimTimeCondition", "Control", "Rule", "ControlAction"):
+            if need not in {c.name for _r, c in rt_classes}:
+                raise AnchorError("class %s vanished from the model modules" % need)
+        hooks = ("__getstate__", "__setstate__", "__reduce__", "__reduce_ex__", "__deepcopy__", "__copy__")
+        n_hook = 0
+        for rel, c in rt_classes:
+            found = []
+            for n in c.body:
+                if isinstance(n, ast.FunctionDef) and n.name in hooks:
+                    found.append(n.name)
+            # __slots__ is compatible with pickling only when every attribute the class's methods store is a slot: else the store raises / is lost
+            slots = [n for n in c.body if isinstance(n, ast.Assign) and any(isinstance(t, ast.Name) and t.id == "__slots__" for t in n.targets)]
+            if slots:
+                found.append("__slots__")
+            n_hook += 1
+            chk.expect(not found, "R-C10-2", "%s keeps its state in plain instance attributes (no pickling / copying hook, no __slots__)" % c.name, loc(rel, c),
+                       "a pickling hook can drop or rename run-time fields between pause and restart", found=found)
+        vc = repo.cls(CTRL, "ValueCondition")
+        vm = {n.name: n for n in vc.body if isinstance(n, ast.FunctionDef)}
+        if "__new__" in vm and "__getnewargs__" in vm:
+            new_params = [a.arg for a in vm["__new__"].args.args][1:]
+            ret = [r for r in walk(vm["__getnewargs__"]) if isinstance(r, ast.Return)]
+            elts = ret[0].value.elts if ret and isinstance(ret[0].value, ast.Tuple) else []
+            got = [unparse(e).replace("self._", "") for e in elts]
+            chk.expect(len(elts) == len(new_params) and all(g.startswith(p[:6]) or p in g for g, p in zip(got, new_params)), "R-C10-2",
+                       "ValueCondition.__getnewargs__ returns the arguments of __new__ in order", loc(CTRL, vm["__getnewargs__"]),
+                       expected=new_params, found=got)
+        elif "__new__" in vm:
+            chk.bad("R-C10-2", "ValueCondition defines __new__ with arguments but no __getnewargs__ (unpickling fails)", loc(CTRL, vm["__new__"]))
+        # prologue stores to the model only under first_step
+        n_p = 0
+        for recv, attr, ae, via, node in writes(ast.Module(body=prologue, type_ignores=[])):
+            rv = unparse(recv)
+            if rv.startswith("self._wn") or rv == "wn":
+                n_p += 1
+                chk.expect(guard_of(node, rs) == "first", "R-C10-2", "prologue store %s.%s happens only on a first step" % (rv, attr), loc(rs, node),
+                           "run_sim overwrites model-side run-time state before the loop on a continued run", found=norm(node))
+        for c in calls(ast.Module(body=prologue, type_ignores=[])):
+            nm = call_name(c) or ""
+            if nm.endswith("update_network_previous_values") or nm.endswith("reset_initial_values"):
+                n_p += 1
+                chk.expect(guard_of(c, rs) == "first" or guard_of(parent(c), rs) == "first", "R-C10-2", "prologue call %s happens only on a first step" % nm.split(".")[-1], loc(rs, c))
+        chk.floor("R-C10-2", 60)
 
     # ------------------------------------------------------------ R-C10-3 continuation point
-    # the flag's definition is evaluated, not matched: the slice of the prologue that defines it is run for several model clocks (and for every
-    # value of whatever else it reads); the flag must be true exactly when sim_time == 0, independent of everything else
-    fsl, _w = backward_slice(prologue, {flag})
-    if not fsl:
-        raise ExtractError("run_sim: no definition of %s before the loop" % flag)
-    rows, free_in = flag_rows(fsl, flag)
-    wrong = [(t, fr, v) for t, fr, v in rows if v != (t == 0)]
-    chk.expect(bool(rows) and not wrong, "R-C10-3", "%s is exactly `sim_time == 0`" % flag, loc(rs, fsl[0]),
-               "the flag that guards the first-step-only initialisation must be true on a fresh model (sim_time == 0) and false on every continued run, "
-               "whatever else the model holds%s" % ("; its definition also reads %s" % free_in if free_in else ""),
-               expected="truth(%s) == (sim_time == 0)" % flag,
-               found=["sim_time=%r %s-> %s" % (t, "".join("%s=%r " % kv for kv in sorted(fr.items())), v) for t, fr, v in wrong[:4]] or None)
+    with chk.part("R-C10-3 continuation point"):
+        # the flag's definition is evaluated, not matched: the slice of the prologue that defines it is run for several model clocks (and for every
+        # value of whatever else it reads); the flag must be true exactly when sim_time == 0, independent of everything else
+        fsl, _w = backward_slice(prologue, {flag})
+        if not fsl:
+            raise ExtractError("run_sim: no definition of %s before the loop" % flag)
+        rows, free_in = flag_rows(fsl, flag)
+        wrong = [(t, fr, v) for t, fr, v in rows if v != (t == 0)]
+        chk.expect(bool(rows) and not wrong, "R-C10-3", "%s is exactly `sim_time == 0`" % flag, loc(rs, fsl[0]),
+                   "the flag that guards the first-step-only initialisation must be true on a fresh model (sim_time == 0) and false on every continued run, "
+                   "whatever else the model holds%s" % ("; its definition also reads %s" % free_in if free_in else ""),
+                   expected="truth(%s) == (sim_time == 0)" % flag,
+                   found=["sim_time=%r %s-> %s" % (t, "".join("%s=%r " % kv for kv in sorted(fr.items())), v) for t, fr, v in wrong[:4]] or None)
 
-    # loop exits, classified by evaluation: a `break` is a TIME exit if the conditions on its path can be evaluated from the model clock, the
-    # duration and the hydraulic timestep alone (after running the clock arithmetic of the iteration that precedes it); the other breaks depend on
-    # the solver / the controls (error exits) and are not pause points of a successful run
-    def exit_paths():
-        out = []
-        for b_ in g.nodes_where(lambda node, d: isinstance(node, ast.Break)):
-            brk = g.node_ast(b_)
-            chain, q = [], brk
-            while q is not None and q is not loop:
-                p_ = parent(q)
-                if isinstance(p_, (ast.For, ast.While)) and p_ is not loop:
-                    chain = None
-                    break
-                if isinstance(p_, ast.If):
-                    chain.append((p_, q in p_.body, q))
-                q = p_
-            if chain is None or q is not loop:
-                continue            # break of an inner loop / not of the time loop
-            out.append((b_, list(reversed(chain))))
-        return out
+        # loop exits, classified by evaluation: a `break` is a TIME exit if the conditions on its path can be evaluated from the model clock, the
+        # duration and the hydraulic timestep alone (after running the clock arithmetic of the iteration that precedes it); the other breaks depend on
+        # the solver / the controls (error exits) and are not pause points of a successful run
+        def exit_paths():
+            out = []
+            for b_ in g.nodes_where(lambda node, d: isinstance(node, ast.Break)):
+                brk = g.node_ast(b_)
+                chain, q = [], brk
+                while q is not None and q is not loop:
+                    p_ = parent(q)
+                    if isinstance(p_, (ast.For, ast.While)) and p_ is not loop:
+                        chain = None
+                        break
+                    if isinstance(p_, ast.If):
+                        chain.append((p_, q in p_.body, q))
+                    q = p_
+                if chain is None or q is not loop:
+                    continue            # break of an inner loop / not of the time loop
+                out.append((b_, list(reversed(chain))))
+            return out
 
-    def run_exit(chain, t, h, D):
-        """-> (taken?, sim_time when the last test is evaluated) or None when the path conditions are not a function of the clock."""
-        top = chain[0][0] if chain else None
-        q = top
-        while parent(q) is not loop and parent(q) is not None:
-            q = parent(q)
-        if q not in loop.body:
-            return None
-        segs, tests = [loop.body[:loop.body.index(q)]], []
-        if q is not top:
-            return None                                   # the outermost guard is wrapped in something that is not an `if` (with/try)
-        for k, (ifn, in_body, child) in enumerate(chain):
-            tests.append((ifn.test, in_body))
-            branch = ifn.body if in_body else ifn.orelse
-            if k + 1 < len(chain):
-                nxt = chain[k + 1][0]
-                if nxt not in branch:
-                    return None
-                segs.append(branch[:branch.index(nxt)])
-        wanted, sls = {"self._wn.sim_time"}, [None] * len(segs)
-        for k in reversed(range(len(segs))):
-            wanted |= _read_texts(tests[k][0])
-            sls[k], wanted = backward_slice(segs[k], wanted)
-        slp, _ = backward_slice(prologue, wanted)
-        ev, wn, reads = _machine(t, duration=D, hyd=h)
-        try:
-            ev.run(slp)
-            taken = True
-            for k in range(len(segs)):
-                ev.run(sls[k])
-                if bool(ev.truth(ev.ev(tests[k][0]))) != tests[k][1]:
-                    taken = False
-                    break
-        except (Unknown, Raised, TypeError, ZeroDivisionError):
-            return None
-        if reads:
-            return None
-        return taken, wn.attrs["sim_time"]
-    PROBES = [(0, 3600, 36000), (32400, 3600, 36000), (36000, 3600, 36000), (1800, 3600, 36000), (5000.0, 3600, 36000), (35000, 3600, 36000),
-              (0, 3600, 0), (7200, 1800, 9000), (7200, 1800, 8999), (0, 900.0, 86400), (39600, 3600, 36000), (9000, 1800, 8999)]
-    time_exits = []
-    for b_, chain in exit_paths():
-        try:
-            res = [run_exit(chain, t, h, D) for t, h, D in PROBES] if chain else [None]
-        except ExtractError:
-            res = [None]
-        if all(r is not None for r in res):
-            time_exits.append((b_, chain, res))
-    chk.extra["time_exits"] = [norm(ch[-1][0].test) for b_, ch, r in time_exits]
-    bad_exit = [(PROBES[i], r) for b_, ch, res in time_exits for i, r in enumerate(res) if r[0] != (r[1] > PROBES[i][2])]
-    # exits reached after the time advance of the same iteration end the run; an exit tested before anything else in the iteration
-    # (loop head) serves a continued run that has no step left.  Every one of them must be taken iff the clock it sees is past the duration.
-    after_adv = [e for e in time_exits if adv and any(g.dominates(a_, e[0], idom) for a_ in adv)]
-    chk.expect(len(after_adv) == 1 and not bad_exit, "R-C10-3", "the loop ends normally only when sim_time > duration",
-               loc(rs, time_exits[0][1][-1][0]) if time_exits else loc(rs),
-               "a run must stop after the last step at or before the duration and not earlier: a part that stops early (or late) makes the continued run "
-               "start at a different time than the uninterrupted one passes through", expected="one clock-dependent exit after the time advance, and every clock-dependent exit taken iff sim_time > duration",
-               found=[norm(ch[-1][0].test) for b_, ch, r in time_exits] + ["(sim_time,h,duration)=%r -> exit %r at sim_time %r" % (pr, r[0], r[1]) for pr, r in bad_exit[:3]])
-    head = [e for e in time_exits if e not in after_adv]
-    past = [i for i, (t_, h_, d_) in enumerate(PROBES) if t_ > d_]
-    chk.expect(any(all(e[2][i][0] for i in past) for e in head), "R-C10-3", "a continued run whose clock is already past the duration leaves the loop before solving a step", loc(rs),
-               "the uninterrupted run stops at the bottom-of-loop test; a run continued from the paused model (sim_time = last step + h > duration) must not report one more step",
-               expected="a clock-dependent exit tested before the first solve of the iteration", found=[norm(ch[-1][0].test) for b_, ch, r in head] or "no exit before the time advance")
-    time_exits = after_adv
-    if time_exits:
-        nb, nchain, nres = time_exits[0]
-        chk.expect(bool(adv) and any(g.dominates(a_, nb, idom) for a_ in adv), "R-C10-3",
-                   "the normal exit is reached only after sim_time was advanced by the hydraulic timestep (a continued run starts at the next grid time)", loc(rs))
-        # the advance returns to the grid: the clock arithmetic of one iteration is evaluated on whole and partial steps
-        grid = lambda t, h: (t + h) - ((t + h) % h)
-        off = [(PROBES[i], r[1]) for i, r in enumerate(nres) if not isinstance(r[1], (int, float)) or abs(r[1] - grid(PROBES[i][0], PROBES[i][1])) > 1e-9]
-        chk.expect(not off, "R-C10-3", "the time advance adds one hydraulic timestep and removes the overstep (returns to the grid after a partial step)",
-                   loc(rs, g.node_ast(adv[0])) if adv else loc(rs), expected="sim_time' = (sim_time + h) - (sim_time + h) % h",
-                   found=["(sim_time,h,duration)=%r -> %r" % o for o in off[:4]] or None)
-        # and a call of update_network_previous_values dominates every advance (only this dominance is checked; that nothing between the
-        # advance and the exit test stores results or changes state again is NOT decided)
-        upv = [u for u in g.calling("update_network_previous_values") if in_loop(u)]
-        chk.expect(bool(upv) and bool(adv) and all(any(g.dominates(u, a_, idom) for u in upv) for a_ in adv), "R-C10-3",
-                   "the accepted state is recorded (update_network_previous_values) before every time advance", loc(rs))
-    chk.floor("R-C10-3", 4)
+        def run_exit(chain, t, h, D):
+            """-> (taken?, sim_time when the last test is evaluated) or None when the path conditions are not a function of the clock."""
+            top = chain[0][0] if chain else None
+            q = top
+            while parent(q) is not loop and parent(q) is not None:
+                q = parent(q)
+            if q not in loop.body:
+                return None
+            segs, tests = [loop.body[:loop.body.index(q)]], []
+            if q is not top:
+                return None                                   # the outermost guard is wrapped in something that is not an `if` (with/try)
+            for k, (ifn, in_body, child) in enumerate(chain):
+                tests.append((ifn.test, in_body))
+                branch = ifn.body if in_body else ifn.orelse
+                if k + 1 < len(chain):
+                    nxt = chain[k + 1][0]
+                    if nxt not in branch:
+                        return None
+                    segs.append(branch[:branch.index(nxt)])
+            wanted, sls = {"self._wn.sim_time"}, [None] * len(segs)
+            for k in reversed(range(len(segs))):
+                wanted |= _read_texts(tests[k][0])
+                sls[k], wanted = backward_slice(segs[k], wanted)
+            slp, _ = backward_slice(prologue, wanted)
+            ev, wn, reads = _machine(t, duration=D, hyd=h)
+            try:
+                ev.run(slp)
+                taken = True
+                for k in range(len(segs)):
+                    ev.run(sls[k])
+                    if bool(ev.truth(ev.ev(tests[k][0]))) != tests[k][1]:
+                        taken = False
+                        break
+            except (Unknown, Raised, TypeError, ZeroDivisionError):
+                return None
+            if reads:
+                return None
+            return taken, wn.attrs["sim_time"]
+        PROBES = [(0, 3600, 36000), (32400, 3600, 36000), (36000, 3600, 36000), (1800, 3600, 36000), (5000.0, 3600, 36000), (35000, 3600, 36000),
+                  (0, 3600, 0), (7200, 1800, 9000), (7200, 1800, 8999), (0, 900.0, 86400), (39600, 3600, 36000), (9000, 1800, 8999)]
+        time_exits = []
+        for b_, chain in exit_paths():
+            try:
+                res = [run_exit(chain, t, h, D) for t, h, D in PROBES] if chain else [None]
+            except ExtractError:
+                res = [None]
+            if all(r is not None for r in res):
+                time_exits.append((b_, chain, res))
+        chk.extra["time_exits"] = [norm(ch[-1][0].test) for b_, ch, r in time_exits]
+        bad_exit = [(PROBES[i], r) for b_, ch, res in time_exits for i, r in enumerate(res) if r[0] != (r[1] > PROBES[i][2])]
+        # exits reached after the time advance of the same iteration end the run; an exit tested before anything else in the iteration
+        # (loop head) serves a continued run that has no step left.  Every one of them must be taken iff the clock it sees is past the duration.
+        after_adv = [e for e in time_exits if adv and any(g.dominates(a_, e[0], idom) for a_ in adv)]
+        chk.expect(len(after_adv) == 1 and not bad_exit, "R-C10-3", "the loop ends normally only when sim_time > duration",
+                   loc(rs, time_exits[0][1][-1][0]) if time_exits else loc(rs),
+                   "a run must stop after the last step at or before the duration and not earlier: a part that stops early (or late) makes the continued run "
+                   "start at a different time than the uninterrupted one passes through", expected="one clock-dependent exit after the time advance, and every clock-dependent exit taken iff sim_time > duration",
+                   found=[norm(ch[-1][0].test) for b_, ch, r in time_exits] + ["(sim_time,h,duration)=%r -> exit %r at sim_time %r" % (pr, r[0], r[1]) for pr, r in bad_exit[:3]])
+        head = [e for e in time_exits if e not in after_adv]
+        past = [i for i, (t_, h_, d_) in enumerate(PROBES) if t_ > d_]
+        chk.expect(any(all(e[2][i][0] for i in past) for e in head), "R-C10-3", "a continued run whose clock is already past the duration leaves the loop before solving a step", loc(rs),
+                   "the uninterrupted run stops at the bottom-of-loop test; a run continued from the paused model (sim_time = last step + h > duration) must not report one more step",
+                   expected="a clock-dependent exit tested before the first solve of the iteration", found=[norm(ch[-1][0].test) for b_, ch, r in head] or "no exit before the time advance")
+        time_exits = after_adv
+        if time_exits:
+            nb, nchain, nres = time_exits[0]
+            chk.expect(bool(adv) and any(g.dominates(a_, nb, idom) for a_ in adv), "R-C10-3",
+                       "the normal exit is reached only after sim_time was advanced by the hydraulic timestep (a continued run starts at the next grid time)", loc(rs))
+            # the advance returns to the grid: the clock arithmetic of one iteration is evaluated on whole and partial steps
+            grid = lambda t, h: (t + h) - ((t + h) % h)
+            off = [(PROBES[i], r[1]) for i, r in enumerate(nres) if not isinstance(r[1], (int, float)) or abs(r[1] - grid(PROBES[i][0], PROBES[i][1])) > 1e-9]
+            chk.expect(not off, "R-C10-3", "the time advance adds one hydraulic timestep and removes the overstep (returns to the grid after a partial step)",
+                       loc(rs, g.node_ast(adv[0])) if adv else loc(rs), expected="sim_time' = (sim_time + h) - (sim_time + h) % h",
+                       found=["(sim_time,h,duration)=%r -> %r" % o for o in off[:4]] or None)
+            # and a call of update_network_previous_values dominates every advance (only this dominance is checked; that nothing between the
+            # advance and the exit test stores results or changes state again is NOT decided)
+            upv = [u for u in g.calling("update_network_previous_values") if in_loop(u)]
+            chk.expect(bool(upv) and bool(adv) and all(any(g.dominates(u, a_, idom) for u in upv) for a_ in adv), "R-C10-3",
+                       "the accepted state is recorded (update_network_previous_values) before every time advance", loc(rs))
+        chk.floor("R-C10-3", 4)
 
     # ------------------------------------------------------------ R-C10-5 the rule clock of a continued run
-    # R-C10-1 only decides that the rule clock is re-derived from the model; WHICH value matters: rules are evaluated at the instants
-    # clock * rule_timestep, the uninterrupted run has evaluated them at every instant <= the last accepted solution (prev_sim_time) BEFORE that
-    # solution, so a continued run must resume at the first rule instant STRICTLY AFTER prev_sim_time (resuming AT it re-evaluates the rules with
-    # the solution of the pause instant, which the uninterrupted run never does; resuming later skips an instant).
-    # The clock attribute is identified by its role: the simulator attribute the loop multiplies with the rule timestep.
-    clocks = set()
-    for m in sorted(loop_methods):
-        for n in walk(meths[m]):
-            if isinstance(n, ast.BinOp) and isinstance(n.op, ast.Mult):
-                for a_, b_ in ((n.left, n.right), (n.right, n.left)):
-                    for x in ast.walk(a_):
-                        if isinstance(x, ast.Attribute) and isinstance(x.value, ast.Name) and x.value.id == "self" and (dotted(b_) or "").endswith("rule_timestep"):
-                            clocks.add(x.attr)
-    clocks = {c for c in clocks if c in carried}
-    if len(clocks) != 1:
-        raise ExtractError("rule clock of the time loop not identified (simulator attributes multiplied with rule_timestep and advanced by the loop: %s)" % sorted(clocks))
-    clock = sorted(clocks)[0]
-    csl, _w = backward_slice(prologue, {"self." + clock})
-    c5 = "a continued run resumes rule evaluation at the first rule instant strictly after the last accepted solution (self.%s)" % clock
-    c5f = "a fresh run starts rule evaluation at the first positive rule instant (self.%s == 1)" % clock
-    if not csl:
-        chk.bad("R-C10-5", c5, loc(rs), "run_sim assigns no value to the rule clock self.%s before the loop" % clock)
-    else:
-        def clock_after(sim_time, prev, rt):
-            ev, wn, reads = _machine(sim_time, time_attrs={"rule_timestep": rt}, wn_attrs={"_prev_sim_time": prev})
-            try:
-                ev.run(csl)
-            except Raised as e:
-                raise ExtractError("the definition of self.%s raises on (sim_time=%r, prev_sim_time=%r, rule_timestep=%r)" % (clock, sim_time, prev, rt))
-            return ev.env["self"].attrs.get(clock)
-        RPROBES = [(3600, 600), (3700, 600), (4199, 600), (4200, 600), (599, 600), (600, 600), (7200, 360), (7300, 360), (0, 600)]
-        site = [n for n in walk(ast.Module(body=csl, type_ignores=[])) if isinstance(n, (ast.Assign, ast.AnnAssign)) and any(dotted(t) == "self." + clock for t in _flat_targets(n))]
-        where = loc(rs, site[-1] if site else csl[0])
-        off = []
-        for prev, rt in RPROBES:
-            v = clock_after(prev + 3600, prev, rt)
-            want = prev // rt + 1
-            if not (isinstance(v, (int, float)) and not isinstance(v, bool) and v == want):
-                off.append("prev_sim_time=%r rule_timestep=%r -> clock %r, i.e. next rule instant %s (expected clock %r, instant %r)" % (
-                    prev, rt, v, v * rt if isinstance(v, (int, float)) else "?", want, want * rt))
-        chk.expect(not off, "R-C10-5", c5, where,
-                   "the value stored into the rule clock on the not-first-step path of run_sim's prologue, evaluated on %d (prev_sim_time, rule_timestep) pairs on and "
-                   "off the rule grid: clock * rule_timestep must be the smallest multiple of the rule timestep that is > prev_sim_time" % len(RPROBES),
-                   expected="clock == floor(prev_sim_time / rule_timestep) + 1", found=off[:4] or None)
-        off = []
-        for prev in (None, -1, 0, 3600):
-            for rt in (600, 360):
-                v = clock_after(0, prev, rt)
-                if not (isinstance(v, (int, float)) and not isinstance(v, bool) and v == 1):
-                    off.append("sim_time=0 prev_sim_time=%r rule_timestep=%r -> clock %r" % (prev, rt, v))
-        chk.expect(not off, "R-C10-5", c5f, where, "rules are evaluated at the positive multiples of the rule timestep, not before the first hydraulic solution",
-                   expected="clock == 1", found=off[:4] or None)
-    chk.floor("R-C10-5", 2)
+    with chk.part("R-C10-5 the rule clock of a continued run"):
+        # R-C10-1 only decides that the rule clock is re-derived from the model; WHICH value matters: rules are evaluated at the instants
+        # clock * rule_timestep, the uninterrupted run has evaluated them at every instant <= the last accepted solution (prev_sim_time) BEFORE that
+        # solution, so a continued run must resume at the first rule instant STRICTLY AFTER prev_sim_time (resuming AT it re-evaluates the rules with
+        # the solution of the pause instant, which the uninterrupted run never does; resuming later skips an instant).
+        # The clock attribute is identified by its role: the simulator attribute the loop multiplies with the rule timestep.
+        clocks = set()
+        for m in sorted(loop_methods):
+            for n in walk(meths[m]):
+                if isinstance(n, ast.BinOp) and isinstance(n.op, ast.Mult):
+                    for a_, b_ in ((n.left, n.right), (n.right, n.left)):
+                        for x in ast.walk(a_):
+                            if isinstance(x, ast.Attribute) and isinstance(x.value, ast.Name) and x.value.id == "self" and (dotted(b_) or "").endswith("rule_timestep"):
+                                clocks.add(x.attr)
+        clocks = {c for c in clocks if c in carried}
+        if len(clocks) != 1:
+            raise ExtractError("rule clock of the time loop not identified (simulator attributes multiplied with rule_timestep and advanced by the loop: %s)" % sorted(clocks))
+        clock = sorted(clocks)[0]
+        csl, _w = backward_slice(prologue, {"self." + clock})
+        c5 = "a continued run resumes rule evaluation at the first rule instant strictly after the last accepted solution (self.%s)" % clock
+        c5f = "a fresh run starts rule evaluation at the first positive rule instant (self.%s == 1)" % clock
+        if not csl:
+            chk.bad("R-C10-5", c5, loc(rs), "run_sim assigns no value to the rule clock self.%s before the loop" % clock)
+        else:
+            def clock_after(sim_time, prev, rt):
+                ev, wn, reads = _machine(sim_time, time_attrs={"rule_timestep": rt}, wn_attrs={"_prev_sim_time": prev})
+                try:
+                    ev.run(csl)
+                except Raised as e:
+                    raise ExtractError("the definition of self.%s raises on (sim_time=%r, prev_sim_time=%r, rule_timestep=%r)" % (clock, sim_time, prev, rt))
+                return ev.env["self"].attrs.get(clock)
+            RPROBES = [(3600, 600), (3700, 600), (4199, 600), (4200, 600), (599, 600), (600, 600), (7200, 360), (7300, 360), (0, 600)]
+            site = [n for n in walk(ast.Module(body=csl, type_ignores=[])) if isinstance(n, (ast.Assign, ast.AnnAssign)) and any(dotted(t) == "self." + clock for t in _flat_targets(n))]
+            where = loc(rs, site[-1] if site else csl[0])
+            off = []
+            for prev, rt in RPROBES:
+                v = clock_after(prev + 3600, prev, rt)
+                want = prev // rt + 1
+                if not (isinstance(v, (int, float)) and not isinstance(v, bool) and v == want):
+                    off.append("prev_sim_time=%r rule_timestep=%r -> clock %r, i.e. next rule instant %s (expected clock %r, instant %r)" % (
+                        prev, rt, v, v * rt if isinstance(v, (int, float)) else "?", want, want * rt))
+            chk.expect(not off, "R-C10-5", c5, where,
+                       "the value stored into the rule clock on the not-first-step path of run_sim's prologue, evaluated on %d (prev_sim_time, rule_timestep) pairs on and "
+                       "off the rule grid: clock * rule_timestep must be the smallest multiple of the rule timestep that is > prev_sim_time" % len(RPROBES),
+                       expected="clock == floor(prev_sim_time / rule_timestep) + 1", found=off[:4] or None)
+            off = []
+            for prev in (None, -1, 0, 3600):
+                for rt in (600, 360):
+                    v = clock_after(0, prev, rt)
+                    if not (isinstance(v, (int, float)) and not isinstance(v, bool) and v == 1):
+                        off.append("sim_time=0 prev_sim_time=%r rule_timestep=%r -> clock %r" % (prev, rt, v))
+            chk.expect(not off, "R-C10-5", c5f, where, "rules are evaluated at the positive multiples of the rule timestep, not before the first hydraulic solution",
+                       expected="clock == 1", found=off[:4] or None)
+        chk.floor("R-C10-5", 2)
 
     # ---------------------------------------------------------------- R-C10-6 the control bookkeeping of a new simulator is a function of the model alone
-    # (T2 path enumeration shared with C04, c04.registration_rules: every control drawn from wn.controls() and from the internal families is registered in the
-    #  checker of its type on EVERY path through _get_control_managers -- a registration that also depends on a test about something else, e.g. the clock at the
-    #  moment the simulator is created, makes a continued run drop controls the uninterrupted run keeps)
-    from .c04 import registration_rules
-    ctype = repo.cls(CTRL, "_ControlType")
-    members = [t.id for s_ in ctype.body if isinstance(s_, ast.Assign) for t in s_.targets if isinstance(t, ast.Name)]
-    if len(members) < 4:
-        raise AnchorError("_ControlType members not found")
-    registration_rules(repo, chk, "R-C10-6", members)
-    chk.floor("R-C10-6", 5)
+    with chk.part("R-C10-6 the control bookkeeping of a new simulator is a function of the model alone"):
+        # (T2 path enumeration shared with C04, c04.registration_rules: every control drawn from wn.controls() and from the internal families is registered in the
+        #  checker of its type on EVERY path through _get_control_managers -- a registration that also depends on a test about something else, e.g. the clock at the
+        #  moment the simulator is created, makes a continued run drop controls the uninterrupted run keeps)
+        from .c04 import registration_rules
+        ctype = repo.cls(CTRL, "_ControlType")
+        members = [t.id for s_ in ctype.body if isinstance(s_, ast.Assign) for t in s_.targets if isinstance(t, ast.Name)]
+        if len(members) < 4:
+            raise AnchorError("_ControlType members not found")
+        registration_rules(repo, chk, "R-C10-6", members)
+        chk.floor("R-C10-6", 5)
 
 
 _FS_OLD = "        if self._wn.sim_time == 0:\n            first_step = True\n        else:\n            first_step = False\n"
